@@ -255,7 +255,9 @@ func shellWorkflows(rng *rand.Rand, n int) []*spec.Spec {
 		for d := 0; d < depth; d++ {
 			pn := fmt.Sprintf("step_%d", d)
 			var cmd string
-			switch rng.Intn(11) {
+			switch rng.Intn(12) {
+			case 11: // parameter values that are punctuation (a field separator): reports must show them whole
+				cmd = "cut -d'{p:sep}' -f{p:field} {i:in} > {o:out}"
 			case 9: // a command of several lines with runs of blanks that matter
 				cmd = "printf 'id    value\\n' > {o:out}\ncat {i:in} >> {o:out}"
 			case 10: // a parameter that appears in the output name only (port created through InParam)
@@ -287,6 +289,16 @@ func shellWorkflows(rng *rand.Rand, n int) []*spec.Spec {
 				}
 				p.Feeds = []*spec.Feed{{Port: "label", How: "str", Values: vals}}
 				p.Outs = []*spec.Out{{Port: "out", Pattern: pn + "_{p:label}.txt"}}
+			}
+			if strings.Contains(cmd, "{p:sep}") {
+				seps, fields := []string{}, []string{}
+				for range files {
+					seps = append(seps, []string{",", "e", "a", "_"}[rng.Intn(4)])
+					fields = append(fields, fmt.Sprint(1+rng.Intn(2)))
+				}
+				p.Feeds = []*spec.Feed{{Port: "sep", How: "str", Values: seps}, {Port: "field", How: "str", Values: fields}}
+				// the library refuses "," in file names, so the separator stays out of the output's name
+				p.Outs = []*spec.Out{{Port: "out", Pattern: "{i:in}." + pn + ".txt"}}
 			}
 			if strings.Contains(cmd, "GREETING") {
 				p.Prepend = "env GREETING=hello_" + pn
@@ -358,6 +370,15 @@ func genTree(rng *rand.Rand, nrec int) *mon.AuditJSON {
 		if rng.Intn(3) == 0 {
 			a.Params["q"] = "x_y"
 			a.Tags["in.grp"] = fmt.Sprintf("g%d", i%3)
+		}
+		if rng.Intn(4) == 0 {
+			// values that end in, or consist of, punctuation and blanks (separators, formats): a report shows them whole.
+			// No characters that HTML or TeX would need escaped - the converters do not escape, and the property does not ask.
+			odd := []string{",", "a,", "x, y", "b ", ", ", "k: v", "1=2", ";", "v.", "-", " lead", "t:"}
+			a.Params[[]string{"sep", "zfmt", "a0"}[rng.Intn(3)]] = odd[rng.Intn(len(odd))]
+			if rng.Intn(2) == 0 {
+				a.Tags[[]string{"in.sep", "zz.t", "a.t"}[rng.Intn(3)]] = odd[rng.Intn(len(odd))]
+			}
 		}
 		return a
 	}
